@@ -1,2 +1,115 @@
 //! Facade fragment "packet" (see mod.rs): re-exports / wrappers the simulator needs
-//! from crate::packet-related code. Owned by the world that uses it.
+//! from crate::packet-related code. Owned by world w1n (NTS packet/cookie/keyset).
+
+use std::collections::HashMap;
+use std::net::SocketAddr;
+use std::sync::{Arc, Mutex, RwLock};
+
+use aes_siv::{
+    KeyInit,
+    siv::{Aes128Siv, Aes256Siv},
+};
+
+pub use crate::packet::{
+    AesSivCmac256, AesSivCmac512, Cipher, CipherHolder, CipherProvider, DecryptError,
+    ExtensionField, NoCipher, RequestIdentifier,
+};
+
+use crate::algorithm::SourceController;
+use crate::config::SourceConfig;
+use crate::cookiestash::CookieStash;
+use crate::source::{NtpSource, NtpSourceActionIterator, ProtocolVersion, SourceNtsData};
+use crate::system::NtpSourceInfo;
+
+/// One extension field as (type id, body bytes) — filled by extension_fields_probe.rs.
+#[derive(Clone, Debug, PartialEq, Eq)]
+pub struct EfView {
+    pub type_id: u16,
+    pub data: Vec<u8>,
+}
+
+/// The three extension-field lists of a decoded packet — filled by packet_probe.rs.
+#[derive(Clone, Debug, PartialEq, Eq, Default)]
+pub struct PacketEfView {
+    pub authenticated: Vec<EfView>,
+    pub encrypted: Vec<EfView>,
+    pub untrusted: Vec<EfView>,
+    pub has_mac: bool,
+}
+
+/// AES-SIV straight from the `aes-siv` crate (NOT through the repo's `Cipher`
+/// wrappers): the simulator's independent client/attacker implementation.
+/// Returns tag||ciphertext.
+pub fn siv_encrypt(alg: u16, key: &[u8], nonce: &[u8], aad: &[u8], plaintext: &[u8]) -> Option<Vec<u8>> {
+    match (alg, key.len()) {
+        (15, 32) => Aes128Siv::new_from_slice(key).ok()?.encrypt([aad, nonce], plaintext).ok(),
+        (17, 64) => Aes256Siv::new_from_slice(key).ok()?.encrypt([aad, nonce], plaintext).ok(),
+        _ => None,
+    }
+}
+
+pub fn siv_decrypt(alg: u16, key: &[u8], nonce: &[u8], aad: &[u8], ciphertext: &[u8]) -> Option<Vec<u8>> {
+    match (alg, key.len()) {
+        (15, 32) => Aes128Siv::new_from_slice(key).ok()?.decrypt([aad, nonce], ciphertext).ok(),
+        (17, 64) => Aes256Siv::new_from_slice(key).ok()?.decrypt([aad, nonce], ciphertext).ok(),
+        _ => None,
+    }
+}
+
+/// Which protocol an NTS source speaks (the simulator cannot name `ProtocolVersion`'s
+/// variants it does not need).
+pub fn protocol_version(v5: bool) -> ProtocolVersion {
+    if v5 { ProtocolVersion::V5 } else { ProtocolVersion::V4 }
+}
+
+/// A real `NtpSource` configured with NTS data (cookies + session ciphers), as the
+/// daemon's NTS spawner would create it after a key exchange.
+pub fn new_nts_source<C: SourceController>(
+    addr: SocketAddr,
+    config: SourceConfig,
+    v5: bool,
+    controller: C,
+    cookies: Vec<Vec<u8>>,
+    alg: u16,
+    c2s: &[u8],
+    s2c: &[u8],
+) -> Option<(NtpSource<C>, NtpSourceActionIterator)> {
+    let mut stash = CookieStash::default();
+    for c in cookies {
+        stash.store(c);
+    }
+    let nts = Box::new(SourceNtsData {
+        cookies: stash,
+        c2s: super::keyset::cipher_from(alg, c2s)?,
+        s2c: super::keyset::cipher_from(alg, s2c)?,
+    });
+    Some(NtpSource::new(
+        addr,
+        config,
+        protocol_version(v5),
+        controller,
+        Some(nts),
+        crate::ClockId::new(),
+        Arc::new(RwLock::new(NtpSourceInfo::default())),
+        Arc::new(Mutex::new(HashMap::new())),
+    ))
+}
+
+/// A real `NtpSource` without NTS (the "no keys" receive path).
+pub fn new_plain_source<C: SourceController>(
+    addr: SocketAddr,
+    config: SourceConfig,
+    v5: bool,
+    controller: C,
+) -> (NtpSource<C>, NtpSourceActionIterator) {
+    NtpSource::new(
+        addr,
+        config,
+        protocol_version(v5),
+        controller,
+        None,
+        crate::ClockId::new(),
+        Arc::new(RwLock::new(NtpSourceInfo::default())),
+        Arc::new(Mutex::new(HashMap::new())),
+    )
+}
